@@ -156,6 +156,12 @@ int ubuf_pic_plane_set_color(struct ubuf *ubuf, const char *chroma,
     UBASE_RETURN(ubuf_pic_plane_write(ubuf, chroma, hoffset, voffset,
                                       hsize, vsize, &buf))
 
+    /* negative offsets start from the end, as in ubuf_pic_plane_write */
+    if (hoffset < 0)
+        hoffset += width;
+    if (voffset < 0)
+        voffset += height;
+
     if (hsize == -1) {
         width -= hoffset;
     } else {
